@@ -340,7 +340,7 @@ def _process(path, out, repo, verif_root, canary, depth, subst=()):
         if st.startswith("//@include-subst"):
             parts = shlex.split(st[len("//@include-subst"):])
             ipath = "%s/%s" % (verif_root, parts[0])
-            sub = [tuple(x.split("=>", 1)) for x in parts[1:]]
+            sub = [tuple(y.replace("\\n", "\n") for y in x.split("=>", 1)) for x in parts[1:]]   # `\n` in a pattern/replacement = line break
             _process(ipath, out, repo, verif_root, canary, depth + 1, tuple(subst) + tuple(sub))
             i += 1
         elif st.startswith("//@include"):
